@@ -101,11 +101,14 @@ func script(b beh) string {
 		return `trap "" TERM; echo r; exec sleep 60`
 	case bIgnX:
 		return `trap "" TERM; echo r; sleep ` + d + `; exit 3`
-	case bTerm:
-		return `trap 'echo T; exit 0' TERM; echo r; while :; do sleep 0.02; done`
 	}
-	return "echo r; exec sleep 60"
+	// stay / hook / term: well-behaved long-lived child. It honours SIGTERM at once
+	// (wait is interrupted by the trapped signal) and says so on its pipe before
+	// exiting 0; a SIGKILL leaves no "T".
+	return `trap 'kill $! 2>/dev/null; echo T; exit 0' TERM; sleep 60 >/dev/null & echo r; wait $!`
 }
+
+func (b beh) honoursTerm() bool { return b.Kind == bStay || b.Kind == bHook || b.Kind == bTerm }
 
 // ---------------------------------------------------------------------------
 // /proc view
@@ -555,6 +558,7 @@ func runHistory(r *mon.Run, idx int, h history) (out outcome) {
 
 	// 1. every child gone (neither running nor zombie)
 	ignAliveAtTeardown := false
+	ignoringAtTeardown := false // some child that may still run ignores TERM (ign, ignx)
 	termKids := 0
 	for _, sp := range spawns {
 		v := viewChild(sp.Pid, sp.Starttime)
@@ -567,8 +571,11 @@ func runHistory(r *mon.Run, idx int, h history) (out outcome) {
 		if !sp.recovered && (sp.B.Kind == bIgnore) {
 			ignAliveAtTeardown = true
 		}
-		if !sp.recovered && sp.B.Kind == bTerm {
+		if !sp.recovered && sp.B.honoursTerm() {
 			termKids++
+		}
+		if !sp.recovered && (sp.B.Kind == bIgnore || sp.B.Kind == bIgnX) {
+			ignoringAtTeardown = true
 		}
 	}
 	r.Event("children_checked_after_return", len(spawns))
@@ -639,11 +646,26 @@ func runHistory(r *mon.Run, idx int, h history) (out outcome) {
 			viol("killed-before-grace-period", fmt.Sprintf("a TERM-ignoring child was running, ShutdownGracePeriod=%v, but prefork returned only %v after its last callback", effGrace, el))
 		}
 	}
-	// 4. SIGTERM is delivered first (only judged with a 10 s grace period)
+	// 4. SIGTERM is delivered first to every running child, initial or replacement
+	// (only judged with a 10 s grace period: a loaded machine may need a moment to
+	// run the child's trap, never 10 s)
 	if grace >= termGrace {
+		if termKids > 0 && !ignoringAtTeardown {
+			r.Event("teardown_durations_vs_grace_judged", 1)
+			if el := tReturn.Sub(tLastAny); el >= grace {
+				if meter.maxLag(tLastAny, tReturn) > stallLimit {
+					r.Event("skipped_process_stalled", 1)
+				} else {
+					viol("teardown-took-grace-period-with-term-honouring-children", fmt.Sprintf("every running child honours SIGTERM at once, yet prefork returned %v after its last event (ShutdownGracePeriod %v): somebody was left to the SIGKILL fallback", el, grace))
+				}
+			}
+		}
 		for _, sp := range spawns {
-			if sp.recovered || sp.B.Kind != bTerm {
+			if sp.recovered || !sp.B.honoursTerm() {
 				continue
+			}
+			if sp.J >= h.G {
+				r.Event("replacement_children_teardown_judged", 1)
 			}
 			select {
 			case <-sp.eof:
@@ -657,7 +679,12 @@ func runHistory(r *mon.Run, idx int, h history) (out outcome) {
 					r.Event("skipped_process_stalled", 1)
 					continue
 				}
-				viol("child-killed-without-sigterm", fmt.Sprintf("child pid %d traps TERM and reports it, grace is %v, but it died without ever seeing SIGTERM", sp.Pid, grace))
+				key := "child-killed-without-sigterm"
+				role := "initial"
+				if sp.J >= h.G {
+					key, role = "replacement-child-killed-without-sigterm", "replacement"
+				}
+				viol(key, fmt.Sprintf("%s child pid %d (%s, producer call #%d) traps TERM and reports it, grace is %v, but it died without ever seeing SIGTERM", role, sp.Pid, sp.B.Kind, sp.J, grace))
 			}
 		}
 	}
@@ -805,13 +832,63 @@ func ensureTermination(h *history) {
 	}
 }
 
+// genReplacementTeardown: a child of the initial fleet dies, its replacement is a
+// well-behaved long-lived child, and then a return path is taken while that
+// replacement is alive: ErrOverRecovery by one more exit, an OnChildSpawn error
+// or a CommandProducer failure on a later replacement. Grace period 10 s so that
+// "SIGTERM first, SIGKILL only after grace" can be told apart per child.
+func genReplacementTeardown(rnd *rand.Rand) history {
+	var h history
+	h.G = 2 + rnd.Intn(3)
+	ex := func() beh { return beh{Kind: []string{bExit0, bExit1}[rnd.Intn(2)], D: 30 + rnd.Intn(121)} }
+	long := func() beh { return beh{Kind: []string{bTerm, bStay}[rnd.Intn(2)]} }
+	cause := rnd.Intn(4)
+	if cause == 0 || h.G == 2 {
+		// over-recovery: threshold+1 of the initial children exit, `threshold` replacements stay
+		h.Threshold = 1 + rnd.Intn(h.G-1)
+		for i := 0; i < h.G; i++ {
+			if i <= h.Threshold {
+				h.Seq = append(h.Seq, ex())
+			} else {
+				h.Seq = append(h.Seq, long())
+			}
+		}
+		for i := 0; i < h.Threshold; i++ {
+			h.Seq = append(h.Seq, long())
+		}
+	} else {
+		// `threshold` exits; the last replacement fails (hook error / producer failure)
+		h.Threshold = 2 + rnd.Intn(2)
+		if h.Threshold > h.G {
+			h.Threshold = h.G
+		}
+		for i := 0; i < h.G; i++ {
+			if i < h.Threshold {
+				h.Seq = append(h.Seq, ex())
+			} else {
+				h.Seq = append(h.Seq, long())
+			}
+		}
+		for i := 0; i < h.Threshold-1; i++ {
+			h.Seq = append(h.Seq, long())
+		}
+		h.Seq = append(h.Seq, beh{Kind: []string{bHook, bFail, bNil}[cause-1]})
+	}
+	rnd.Shuffle(h.G, func(i, j int) { h.Seq[i], h.Seq[j] = h.Seq[j], h.Seq[i] })
+	h.GraceMs = int(termGrace / time.Millisecond)
+	h.IntervalMs = []int{0, 0, 100}[rnd.Intn(3)]
+	h.FillD = []int{40, 60, 80}
+	ensureTermination(&h)
+	return h
+}
+
 func genRandom(rnd *rand.Rand, thorough bool) history {
 	var h history
 	n := rnd.Intn(7)
 	kinds := []string{bExit0, bExit1, bExit1, bStay, bStay, bIgnore, bIgnX, bFail, bNil, bUnst, bHook}
-	termMode := rnd.Intn(10) == 0
+	termMode := rnd.Intn(8) == 0
 	if termMode {
-		kinds = []string{bExit0, bExit1, bTerm, bTerm, bTerm, bFail, bHook}
+		kinds = []string{bExit0, bExit1, bTerm, bStay, bTerm, bFail, bHook}
 	}
 	for i := 0; i < n; i++ {
 		h.Seq = append(h.Seq, beh{Kind: kinds[rnd.Intn(len(kinds))]})
@@ -857,7 +934,7 @@ func TestC39(t *testing.T) {
 	defer r.Finish()
 	meter = startStallMeter()
 	defer close(meter.stop)
-	r.Rule("history = GOMAXPROCS 2-4, RecoverThreshold 0-3, ShutdownGracePeriod 50-200 ms (10 s in TERM-delivery histories, default 5 s in a few thorough ones), RecoverInterval 0/100/300 ms, a script of 0-6 CommandProducer behaviours {exit 0 / exit 1 after 30-150 ms, stay, ignore TERM, ignore TERM then exit, report TERM, producer error / nil / not started, OnChildSpawn error} followed by exit-1 fillers, optional OnMasterReady error; thorough additionally enumerates all scripts of length <= 4 over {exit 0, exit 1, ignore-TERM, spawn failure, hook error}. distinct = (G, threshold, interval on/off, cause of return, behaviours spawned, recoveries, TERM-ignoring child at teardown); non-trivial = at least one recovery, or a hook/spawn-failure return with live children to tear down")
+	r.Rule("history = GOMAXPROCS 2-4, RecoverThreshold 0-3, ShutdownGracePeriod 50-200 ms (10 s in TERM-delivery histories, default 5 s in a few thorough ones), RecoverInterval 0/100/300 ms, a script of 0-6 CommandProducer behaviours {exit 0 / exit 1 after 30-150 ms, stay, ignore TERM, ignore TERM then exit, report TERM (every TERM-honouring child writes T to its pipe before exiting), producer error / nil / not started, OnChildSpawn error} followed by exit-1 fillers, optional OnMasterReady error; every 5th history is a replacement-teardown history (initial children die, well-behaved replacements are alive when ErrOverRecovery / a hook error / a spawn failure ends the master, grace 10 s); thorough additionally enumerates all scripts of length <= 4 over {exit 0, exit 1, ignore-TERM, spawn failure, hook error}. distinct = (G, threshold, interval on/off, cause of return, behaviours spawned, recoveries, TERM-ignoring child at teardown); non-trivial = at least one recovery, or a hook/spawn-failure return with live children to tear down")
 	r.Assume("children are real /bin/sh processes; /proc/<pid>/stat (state, ppid, starttime) identifies them; a child's scripted lifetime is a lower bound of its real one (sleep never returns early, Go timers never fire early)")
 	r.Assume("bounded liveness: a TERM-ignoring child sleeps 60 s, so a return later than grace + 8 s cannot be scheduling noise; a zombie older than 10 s means nobody waits for it; SIGTERM delivery is judged only with a 10 s grace period (the child needs ~20 ms to react); upper-bound judgements are skipped (counted) if the process heartbeat (20 ms ticks) was more than 1 s late in the judged window")
 	r.Assume("GOMAXPROCS is process-global and read once at the start of Prefork.prefork: histories are grouped by GOMAXPROCS value, each group runs in parallel inside this process with that value set, groups run one after the other; the value is restored at the end")
@@ -873,6 +950,8 @@ func TestC39(t *testing.T) {
 		rnd := r.Rand("history", i)
 		if r.Thorough() && i < 780 {
 			hs[i] = genExhaustive(i, rnd)
+		} else if i%5 == 2 {
+			hs[i] = genReplacementTeardown(rnd)
 		} else {
 			hs[i] = genRandom(rnd, r.Thorough())
 		}
@@ -945,6 +1024,8 @@ func TestC39(t *testing.T) {
 		r.Require("respawn_lower_bounds_judged", n/4)
 		r.Require("goroutine_profiles_checked", n*9/10)
 		r.Require("grace_lower_bounds_judged", n/20)
-		r.Require("sigterm_observed_by_child", 1)
+		r.Require("sigterm_observed_by_child", n/10)
+		r.Require("replacement_children_teardown_judged", n/10)
+		r.Require("teardown_durations_vs_grace_judged", n/10)
 	}
 }
